@@ -5,6 +5,7 @@ package c12
 import (
 	"fmt"
 	"go/ast"
+	"go/constant"
 	"go/token"
 	"go/types"
 	"rscheck/rules/reent"
@@ -19,7 +20,9 @@ import (
 	"rscheck/grammar"
 	"rscheck/pat"
 	"rscheck/rules/arith"
+	"rscheck/rules/c01"
 	"rscheck/rules/ring"
+	"rscheck/rules/xtra"
 )
 
 const (
@@ -36,6 +39,7 @@ var Def = driver.PropDef{
 		"R2 wire grammar: the write term of every encodeValue, the read term of every readObject case and of the file-level opcodes of the decoder equal the reference RDB grammar (and therefore each other); EncodeObject/EncodeDump call the parts in file order (select-db, expiry, type, key, value / type, value, footer); the linked encoder's header, footer, select-db and expiry emit the opcodes the reader dispatches on; " +
 		"R3 event wiring: in every decoder case the k-th item read is the k-th payload argument of the event (Hset(key, field, value), Zadd(key, score, member) with the member read first), the adaptor stores each callback parameter in the field of the same meaning and appends in call order, Start* initialises the matching Go type; " +
 		"R5 the BinEntry/ObjEntry converters copy every field other than Value one-to-one; " +
+		"R8 (imported from C01, rules prefixed C01:) the Loader that reads the file back: per-type and per-opcode reader grammar, binding of database/expiry/key to the entry returned, chunk protocol of hashes above 16MB; " +
 		"R6 the two copies of every compact-encoding decoder (ziplist entry/length, zipmap item/length/count, LZF: pkg/rdb/reader.go and the in-repo cupcake decoder) apply the same masks, shifts, widths, sign conversions and case constants (multiset fingerprint, invariant under renaming and reordering), and both RDB length decoders use tag >> 6, value & 0x3f, 14-bit high part << 8.",
 	NotDecided: "float text round-trip ('g',17, NaN, -0), integer-string canonicalisation at numeric boundaries, LZF, ziplist/intset/zipmap integer decoding: all value-level. What is claimed is 'both sides speak the same grammar with the same numbers and wire each element to the right slot'.",
 	Trusted:    []string{"go/parser, go/types (x/tools v0.29.0)", "reference RDB grammar (shared with C01)", "module-cache copy of github.com/cupcake/rdb is the one linked (go.mod)"},
@@ -84,6 +88,7 @@ func decodeSpec() *grammar.Spec {
 		},
 		BufPrims:    map[string]string{"io.ReadFull": "Fix%d"},
 		FieldBufLen: map[string]int64{"intBuf": 8},
+		IfacePrims:  map[string]string{"ReadByte": "U8"},
 		Inline: func(f *types.Func) bool {
 			return f.Pkg() != nil && f.Pkg().Path() == core.Module+"/"+cupPkg
 		},
@@ -91,6 +96,7 @@ func decodeSpec() *grammar.Spec {
 			n := core.NamedTypeName(t)
 			return n == "decode" || n == "byteReader"
 		},
+		MaxDepth: 8,
 	}
 }
 
@@ -104,7 +110,8 @@ func encodeSpec() *grammar.Spec {
 		Inline: func(f *types.Func) bool {
 			return f.Pkg() != nil && f.Pkg().Path() == core.Module+"/"+rdbPkg
 		},
-		Carrier: func(t types.Type) bool { return core.NamedTypeName(t) == "Encoder" },
+		Carrier:  func(t types.Type) bool { return core.NamedTypeName(t) == "Encoder" },
+		MaxDepth: 8,
 	}
 }
 
@@ -161,275 +168,154 @@ func Run(c *core.Ctx) {
 			c.Check("R1.ids", "linked-encoder/"+name, p2, g2 == want, fmt.Sprintf("linked cupcake %s must be %#x, it is %#x", name, want, g2))
 		}
 	}
-	goType := map[string]string{"String": "RdbTypeString", "Hash": "RdbTypeHash", "List": "RdbTypeList", "ZSet": "RdbTypeZSet", "Set": "RdbTypeSet"}
-	writeRef := map[string]string{"String": "Str", "Hash": "Len@a Loop@a{Str Str}", "List": "Len@a Loop@a{Str}", "ZSet": "Len@a Loop@a{Str FloatStr}", "Set": "Len@a Loop@a{Str}"}
-	info := pk.TypesInfo
-	for tn, cn := range goType {
-		if fn := c.Func(rdbPkg, tn, "encodeType"); fn != nil {
-			n1, b := pat.Stmt("_t = rdb.ValueType("+cn+")").Find(info, fn.Decl.Body, nil)
-			ok := false
-			if n1 != nil {
-				n2, _ := pat.Expr("_enc.EncodeType(_t)").Find(info, fn.Decl.Body, b)
-				ok = n2 != nil
-			} else {
-				n2, _ := pat.Expr("_enc.EncodeType(rdb.ValueType("+cn+"))").Find(info, fn.Decl.Body, nil)
-				ok = n2 != nil
-			}
-			c.Check("R1.ids", "encodeType/"+tn, fn.Decl.Pos(), ok, fmt.Sprintf("%s.encodeType must emit %s: a payload tagged with another type is decoded as that type", tn, cn))
-		}
-		// ---- R2 writer grammar
-		if fn := c.Func(rdbPkg, tn, "encodeValue"); fn != nil {
-			ex := grammar.New(c, encodeSpec())
-			got := trimRet(ex.FuncTerm(fn))
-			// tie the range loop to the length written
-			recv := fn.Decl.Recv.List[0].Names[0]
-			rb := pat.Binds{"_o": recv}
-			lenOK := true
-			if strings.Contains(got, "Star{") {
-				n, _ := pat.Expr("_enc.EncodeLength(uint32(len(_o)))").Find(info, fn.Decl.Body, rb)
-				var rng *ast.RangeStmt
-				core.Inspect(fn.Decl.Body, func(m ast.Node) bool {
-					if r, ok := m.(*ast.RangeStmt); ok && rng == nil {
-						rng = r
-					}
-					return true
-				})
-				lenOK = n != nil && rng != nil && pat.Same(info, rng.X, recv) && n.Pos() < rng.Pos()
-				if !lenOK && n == nil && rng == nil {
-					// the body is delegated to a same-package helper called with the receiver:
-					// the count/elements tie must hold inside the helper for its own parameter
-					core.Inspect(fn.Decl.Body, func(m ast.Node) bool {
-						call, ok := m.(*ast.CallExpr)
-						if !ok || lenOK {
-							return true
-						}
-						f := core.CalleeFunc(info, call)
-						if f == nil || f.Pkg() == nil || f.Pkg().Path() != fn.Pkg.PkgPath {
-							return true
-						}
-						h := c.FnOf(f)
-						if h == nil || h.Decl.Body == nil {
-							return true
-						}
-						var hp []*ast.Ident
-						for _, fl := range h.Decl.Type.Params.List {
-							hp = append(hp, fl.Names...)
-						}
-						for i, a := range call.Args {
-							if i >= len(hp) {
-								break
-							}
-							inner := ast.Unparen(a)
-							if cv, ok := inner.(*ast.CallExpr); ok && len(cv.Args) == 1 { // conversion [][]byte(o)
-								inner = ast.Unparen(cv.Args[0])
-							}
-							if !pat.Same(info, inner, recv) {
-								continue
-							}
-							hn, _ := pat.Expr("_enc.EncodeLength(uint32(len(_o)))").Find(info, h.Decl.Body, pat.Binds{"_o": hp[i]})
-							var hr *ast.RangeStmt
-							core.Inspect(h.Decl.Body, func(mm ast.Node) bool {
-								if r, ok := mm.(*ast.RangeStmt); ok && hr == nil {
-									hr = r
-								}
-								return true
-							})
-							if hn != nil && hr != nil && pat.Same(info, hr.X, hp[i]) && hn.Pos() < hr.Pos() {
-								lenOK = true
-							}
-						}
-						return true
-					})
-				}
-				if lenOK {
-					got = strings.Replace(strings.Replace(got, "Len Star{", "Len@a Loop@a{", 1), "Len@a Star{", "Len@a Loop@a{", 1)
-				}
-			}
-			switch {
-			case len(ex.Undecided) > 0:
-				c.Undecidedf("R2.grammar", "encodeValue/"+tn, fn.Decl.Pos(), "%s", strings.Join(ex.Undecided, "; "))
-			case !lenOK:
-				c.Failf("R2.grammar", "encodeValue/"+tn, fn.Decl.Pos(), "%s.encodeValue must write the element count len(o) and then exactly the elements of o; the reader loops over the count it reads", tn)
-			default:
-				c.Check("R2.grammar", "encodeValue/"+tn, fn.Decl.Pos(), got == writeRef[tn],
-					fmt.Sprintf("%s.encodeValue writes `%s`, the reader of that type consumes `%s`", tn, got, writeRef[tn]))
-			}
-			// element fields in reader order
-			switch tn {
-			case "Hash":
-				f1, _ := pat.Expr("_enc.EncodeString(_e.Field)").Find(info, fn.Decl.Body, nil)
-				f2, _ := pat.Expr("_enc.EncodeString(_e.Value)").Find(info, fn.Decl.Body, nil)
-				c.Check("R3.wiring", "encodeValue/Hash/field-then-value", fn.Decl.Pos(), f1 != nil && f2 != nil && f1.Pos() < f2.Pos(), "a hash pair is written field first, value second (the reader takes the first string as the field)")
-			case "ZSet":
-				f1, _ := pat.Expr("_enc.EncodeString(_e.Member)").Find(info, fn.Decl.Body, nil)
-				f2, _ := pat.Expr("_enc.EncodeFloat(_e.Score)").Find(info, fn.Decl.Body, nil)
-				c.Check("R3.wiring", "encodeValue/ZSet/member-then-score", fn.Decl.Pos(), f1 != nil && f2 != nil && f1.Pos() < f2.Pos(), "a sorted-set element is written member first, score second")
-			}
-		}
-	}
-
-	// EncodeDump / EncodeObject order
-	if fn := c.Func(rdbPkg, "", "EncodeDump"); fn != nil {
-		order(c, fn, "EncodeDump", []string{"_o.encodeType(_enc)", "_o.encodeValue(_enc)", "_enc.EncodeDumpFooter()"}, "a DUMP payload is type byte, value, then the version+CRC footer")
-		n, _ := pat.Stmt("_enc = rdb.NewEncoder(&_b)").Find(info, fn.Decl.Body, nil)
-		r, _ := pat.Stmt("return _b.Bytes(), nil").Find(info, fn.Decl.Body, nil)
-		c.Check("R2.grammar", "EncodeDump/buffer", fn.Decl.Pos(), n != nil && r != nil, "EncodeDump returns the buffer its encoder wrote to")
-	}
-	if fn := c.Func(rdbPkg, "Encoder", "EncodeObject"); fn != nil {
-		order(c, fn, "EncodeObject", []string{"_e.enc.EncodeDatabase(int(_db))", "_e.enc.EncodeExpiry(_exp)", "_o.encodeType(_e.enc)", "_e.enc.EncodeString(_key)", "_o.encodeValue(_e.enc)"},
-			"a key record is [SELECTDB db] [EXPIRETIME_MS ms] type key value, in this order")
-		encodeObjectRules(c, fn)
-	}
-	for _, m := range []struct{ name, call string }{{"EncodeHeader", "EncodeHeader"}, {"EncodeFooter", "EncodeFooter"}} {
-		if fn := c.Func(rdbPkg, "Encoder", m.name); fn != nil {
-			n, _ := pat.Expr("_e.enc."+m.call+"()").Find(info, fn.Decl.Body, nil)
-			c.Check("R2.grammar", "Encoder."+m.name, fn.Decl.Pos(), n != nil, m.name+" delegates to the linked encoder's "+m.call)
-		}
-	}
+	encoderRules(c)
 	linkedEncoder(c)
 
-	// ---- R2 reader grammar (in-repo cupcake decoder)
-	ci := cup.TypesInfo
-	ro := c.Func(cupPkg, "decode", "readObject")
-	if ro != nil {
-		var typParam types.Object
-		if ps := ro.Decl.Type.Params.List; len(ps) >= 2 && len(ps[1].Names) == 1 {
-			typParam = ci.Defs[ps[1].Names[0]]
-		}
-		sw := findSwitchOn(ci, ro.Decl.Body, typParam)
-		if sw == nil {
-			c.Undecidedf("R2.grammar", "readObject/switch", ro.Decl.Pos(), "no switch over the type parameter")
-		} else {
-			for v, want := range readRef {
-				spec := decodeSpec()
-				delete(spec.Prims, "(*"+cupName+".decode).readObject")
-				ex := grammar.New(c, spec)
-				got, ok := ex.CaseTerm(ci, sw, v, false)
-				got = trimRet(got)
-				key := fmt.Sprintf("readObject/%d-%s", v, typeNames[v])
-				switch {
-				case !ok:
-					c.Failf("R2.grammar", key, sw.Pos(), "the decoder has no case for value type %d (%s): payloads the tool's own parser produces cannot be decoded", v, typeNames[v])
-				case len(ex.Undecided) > 0:
-					c.Undecidedf("R2.grammar", key, sw.Pos(), "%s", strings.Join(ex.Undecided, "; "))
-				default:
-					c.Check("R2.grammar", key, sw.Pos(), got == want, fmt.Sprintf("readObject(%s) consumes `%s`, the format (and the tool's writer) has `%s`", typeNames[v], got, want))
-				}
-			}
-			wiring(c, ro, sw)
-		}
-	}
-	if dec := c.Func(cupPkg, "decode", "decode"); dec != nil {
-		var sw *ast.SwitchStmt
-		core.Inspect(dec.Decl.Body, func(n ast.Node) bool {
-			if s, ok := n.(*ast.SwitchStmt); ok && sw == nil && s.Tag != nil {
-				sw = s
-			}
-			return sw == nil
-		})
-		if sw != nil {
-			ref := map[int64]string{0xfa: "Str Str", 0xfb: "Len Len", 0xfc: "Fix8", 0xfd: "Fix4", 0xfe: "Len", 0xff: ""}
-			for v, want := range ref {
-				ex := grammar.New(c, decodeSpec())
-				got, ok := ex.CaseTerm(ci, sw, v, false)
-				got = trimRet(got)
-				key := fmt.Sprintf("decode/op-%#x", v)
-				switch {
-				case !ok:
-					c.Failf("R2.grammar", key, sw.Pos(), "the file decoder has no case for opcode %#x", v)
-				case len(ex.Undecided) > 0:
-					c.Undecidedf("R2.grammar", key, sw.Pos(), "%s", strings.Join(ex.Undecided, "; "))
-				default:
-					c.Check("R2.grammar", key, sw.Pos(), got == want, fmt.Sprintf("opcode %#x consumes `%s`, the format has `%s`", v, got, want))
-				}
-			}
-			ex := grammar.New(c, decodeSpec())
-			got, _ := ex.CaseTerm(ci, sw, 0, true)
-			c.Check("R2.grammar", "decode/key-record", sw.Pos(), trimRet(got) == "Str Value" && len(ex.Undecided) == 0, "a key record is read as key string then value; got `"+trimRet(got)+"`")
-			// expiry binding
-			if cc := clause(ci, sw, 0xfd); cc != nil {
-				n, _ := pat.Stmt("_x = int64(binary.LittleEndian.Uint32(_d.intBuf)) * 1000").Find(ci, &ast.BlockStmt{List: cc.Body}, nil)
-				c.Check("R3.wiring", "decode/expiry-seconds", cc.Pos(), n != nil, "EXPIRETIME (seconds) is scaled to milliseconds")
-			}
-			if cc := clause(ci, sw, 0xfc); cc != nil {
-				n, _ := pat.Stmt("_x = int64(binary.LittleEndian.Uint64(_d.intBuf))").Find(ci, &ast.BlockStmt{List: cc.Body}, nil)
-				c.Check("R3.wiring", "decode/expiry-ms", cc.Pos(), n != nil, "EXPIRETIME_MS is taken unscaled")
-			}
-		}
-		// scratch buffer width
-		okBuf := 0
-		for _, f := range cup.Syntax {
-			ast.Inspect(f, func(n ast.Node) bool {
-				cl, ok := n.(*ast.CompositeLit)
-				if !ok || core.NamedTypeName(ci.TypeOf(cl)) != "decode" {
-					return true
-				}
-				if len(cl.Elts) == 3 && pat.Expr("make([]byte, 8)").Match(ci, cl.Elts[1], nil) != nil {
-					okBuf++
-				} else {
-					okBuf = -100
-				}
-				return true
-			})
-		}
-		c.Check("R2.grammar", "decode/intBuf-width", dec.Decl.Pos(), okBuf >= 2, "every decode object is built with an 8-byte scratch buffer (the width the fixed-size reads rely on)")
-	}
+	decoderRules(c)
 
-	adaptor(c)
-	converters(c)
+	adaptorRules(c)
+	converterRules(c)
 
 	// ---- R6 the duplicated value decoders agree (value-level arithmetic by sibling comparison)
 	arith.CheckSiblings(c, "R6.siblings")
 	arith.LengthFingerprint(c, "R6.length", c.Func(cupPkg, "decode", "readLength"))
 	arith.LengthFingerprint(c, "R6.length", c.Func(rdbPkg, "rdbReader", "readEncodedLength"))
+
+	// ---- the file written by Encoder is loaded back by Loader: its reader grammar,
+	// the binding of database/expiry/key to the entry and the chunk protocol of
+	// large hashes are C01's rules; they are necessary conditions of the RDB-file
+	// round trip claimed here as well (obligations C01 cannot decide stay C01's).
+	xtra.Import(c, "C01", c01.Run, xtra.HasPrefix("R2.grammar/", "R4.bind/", "R5.chunk/"))
 }
 
-// rootPos is the position, in the root function, of the statement through
-// which site s is reached.
-func rootPos(s flow.Site, n ast.Node) token.Pos {
-	if len(s.Up) > 0 {
-		if nd := s.Up[len(s.Up)-1].At.Node(); nd != nil {
-			return nd.Pos()
+// infeasibleAt is ring.Infeasible with the atoms evaluated where the branch is
+// taken (so that locals defined on the way - a copy of a parameter, a value
+// computed before the test - are resolved at that point, not at the entry),
+// and with conditions held in boolean locals or computed by predicate helpers
+// evaluated through their definitions (truthAt).
+func infeasibleAt(e *flow.Engine, g *cfgq.Graph, up []flow.Frame, atom func(flow.Site, ast.Expr) (bool, bool)) func(b *cfg.Block, s int) bool {
+	return infeasibleD(e, g, up, atom, 0)
+}
+
+func infeasibleD(e *flow.Engine, g *cfgq.Graph, up []flow.Frame, atom func(flow.Site, ast.Expr) (bool, bool), depth int) func(b *cfg.Block, s int) bool {
+	memo := map[*cfg.Block][2]bool{}
+	return func(b *cfg.Block, s int) bool {
+		cnd := cfgq.CondOf(b)
+		if cnd == nil || len(b.Succs) != 2 {
+			return false
 		}
-	}
-	return n.Pos()
-}
-
-// order: the calls matching the patterns happen in this order (each pattern is
-// looked for in fn and in the same-module helpers it calls; what counts is the
-// position in fn of the statement through which the call is reached).
-func order(c *core.Ctx, fn *core.Fn, name string, calls []string, why string) {
-	g := cfgq.Of(c.Program, fn)
-	e := flow.New(c.Program)
-	e.Opaque = func(f *types.Func) bool { return f.Pkg() == nil || !strings.HasSuffix(f.Pkg().Path(), rdbPkg) }
-	first := map[int]token.Pos{}
-	e.Walk(g, fn.Decl.Body, func(s flow.Site, n ast.Node) {
-		x, ok := n.(*ast.CallExpr)
+		if b.Succs[0].Kind == cfg.KindSwitchCaseBody {
+			if t := g.Info.TypeOf(cnd); t == nil || !isBoolType(t) {
+				return false
+			}
+		}
+		r, ok := memo[b]
 		if !ok {
-			return
+			at := flow.Site{G: g, At: cfgq.Point{B: b, I: len(b.Nodes)}, Up: up}
+			v, known := truthAt(e, at, cnd, atom, depth)
+			r = [2]bool{v, known}
+			memo[b] = r
 		}
-		for i, p := range calls {
-			if _, seen := first[i]; seen {
-				continue
-			}
-			if pat.Expr(p).Match(s.G.Info, x, nil) != nil {
-				first[i] = rootPos(s, x)
-			}
-		}
-	})
-	last := token.NoPos
-	ok := true
-	missing := ""
-	for i, p := range calls {
-		pos, found := first[i]
-		if !found || pos < last {
-			ok = false
-			missing = strings.ReplaceAll(p, "_", "")
-			break
-		}
-		last = pos
+		return r[1] && ((s == 0) != r[0])
 	}
-	c.Check("R2.grammar", name+"/order", fn.Decl.Pos(), ok, why+" (offending part: "+missing+")")
+}
+
+func isBoolType(t types.Type) bool {
+	b, ok := t.Underlying().(*types.Basic)
+	return ok && b.Info()&types.IsBoolean != 0
+}
+
+// truthAt evaluates a condition at a site under assumed atoms. An atom the
+// rule does not know is looked through: a boolean constant; a boolean local is
+// what its definitions say (all definitions that are reachable under the same
+// assumptions must agree); a call of a module predicate helper is what its
+// reachable return statements say.
+func truthAt(e *flow.Engine, at flow.Site, cond ast.Expr, atom func(flow.Site, ast.Expr) (bool, bool), depth int) (bool, bool) {
+	return ring.EvalUnder(cond, func(x ast.Expr) (bool, bool) {
+		if v, k := atom(at, x); k {
+			return v, true
+		}
+		x = ast.Unparen(x)
+		if tv, ok := at.G.Info.Types[x]; ok && tv.Value != nil && tv.Value.Kind() == constant.Bool {
+			return constant.BoolVal(tv.Value), true
+		}
+		if depth > 3 {
+			return false, false
+		}
+		agree := func(vals []bool, n int) (bool, bool) {
+			if len(vals) == 0 || len(vals) != n {
+				return false, false
+			}
+			for _, v := range vals[1:] {
+				if v != vals[0] {
+					return false, false
+				}
+			}
+			return vals[0], true
+		}
+		switch y := x.(type) {
+		case *ast.Ident:
+			if t := at.G.Info.TypeOf(y); t == nil || !isBoolType(t) {
+				return false, false
+			}
+			st := e.Step(at, y)
+			if !st.Local || st.Unsafe {
+				return false, false
+			}
+			if st.Entry {
+				if st.Bound && len(st.Defs) == 0 {
+					return truthAt(e, st.ArgSite, st.Arg, atom, depth+1)
+				}
+				return false, false
+			}
+			cut := infeasibleD(e, at.G, at.Up, atom, depth+1)
+			var vals []bool
+			n := 0
+			for _, def := range st.Defs {
+				dn := def.At.Node()
+				if dn == nil {
+					return false, false
+				}
+				if w := at.G.Path(cfgq.Query{From: at.G.Entry(), Target: func(n ast.Node) bool { return n == dn }, AvoidEdge: cut}); w == nil {
+					continue // not reachable under the assumptions
+				}
+				n++
+				switch {
+				case def.Zero:
+					vals = append(vals, false)
+				case def.RHS != nil:
+					if v, k := truthAt(e, def.Site, def.RHS, atom, depth+1); k {
+						vals = append(vals, v)
+					}
+				}
+			}
+			return agree(vals, n)
+		case *ast.CallExpr:
+			rets, ok := e.Follow(at, y, 0)
+			if !ok || len(rets) == 0 {
+				return false, false
+			}
+			hg := rets[0].G
+			cut := infeasibleD(e, hg, rets[0].Up, atom, depth+1)
+			var vals []bool
+			n := 0
+			for _, rt := range rets {
+				rn := rt.At.Node()
+				if rt.Expr == nil || rn == nil {
+					return false, false
+				}
+				if w := hg.Path(cfgq.Query{From: hg.Entry(), Target: func(n ast.Node) bool { return n == rn }, AvoidEdge: cut}); w == nil {
+					continue
+				}
+				n++
+				if v, k := truthAt(e, rt.Site, rt.Expr, atom, depth+1); k {
+					vals = append(vals, v)
+				}
+			}
+			return agree(vals, n)
+		}
+		return false, false
+	})
 }
 
 // encodeObjectRules: when the database selector and the expiry are written.
@@ -480,20 +366,31 @@ func encodeObjectRules(c *core.Ctx, fn *core.Fn) {
 	}
 	// ---- SELECTDB
 	dbCalls := callsOf("EncodeDatabase")
-	if len(dbCalls) != 1 {
-		c.Undecidedf("R2.grammar", "EncodeObject/select-db", fn.Decl.Pos(), "expected one EncodeDatabase call reachable from EncodeObject, found %d", len(dbCalls))
+	sameFrame := len(dbCalls) > 0
+	for _, x := range dbCalls {
+		// several selector writes (one per arm of an if/else, say) are handled as one
+		// event when they live in the same function instance
+		if x.G != dbCalls[0].G || len(x.Up) != len(dbCalls[0].Up) || len(x.Up) > 0 && x.Up[0].Call != dbCalls[0].Up[0].Call {
+			sameFrame = false
+		}
+	}
+	if !sameFrame {
+		c.Undecidedf("R2.grammar", "EncodeObject/select-db", fn.Decl.Pos(), "expected the EncodeDatabase call(s) reachable from EncodeObject in one function, found %d", len(dbCalls))
 	} else {
 		dc := dbCalls[0]
 		gg := dc.G
 		gi := gg.Info
-		okDB := len(dc.Call.Args) == 1 && isParam(dc.Site, dc.Call.Args[0], ps[0])
+		okDB := true
+		for _, x := range dbCalls {
+			okDB = okDB && len(x.Call.Args) == 1 && isParam(x.Site, x.Call.Args[0], ps[0])
+		}
 		var why []string
 		if !okDB {
 			why = append(why, "the selector does not carry the db parameter")
 		}
 		// atoms: A = `e.db == -1` (nothing written yet), B = `uint32(e.db) == db` (same database)
-		atomFor := func(a, b bool) func(ast.Expr) (bool, bool) {
-			return func(x ast.Expr) (bool, bool) {
+		atomFor := func(a, b bool) func(flow.Site, ast.Expr) (bool, bool) {
+			return func(at flow.Site, x ast.Expr) (bool, bool) {
 				be, ok := ast.Unparen(x).(*ast.BinaryExpr)
 				if !ok || be.Op != token.EQL && be.Op != token.NEQ {
 					return false, false
@@ -516,7 +413,7 @@ func encodeObjectRules(c *core.Ctx, fn *core.Fn) {
 					if v, isC := core.IntConst(gi, pr[1]); isC && v == -1 {
 						return a == eq, true
 					}
-					if isParam(flow.Site{G: gg, At: gg.Entry(), Up: dc.Up}, pr[1], ps[0]) {
+					if isParam(at, pr[1], ps[0]) {
 						return b == eq, true
 					}
 				}
@@ -525,38 +422,66 @@ func encodeObjectRules(c *core.Ctx, fn *core.Fn) {
 		}
 		isDB := func(n ast.Node) bool {
 			for _, cl := range cfgq.ExecCalls(n) {
-				if cl == dc.Call {
-					return true
+				for _, x := range dbCalls {
+					if cl == x.Call {
+						return true
+					}
 				}
 			}
 			return false
 		}
 		// same database as before: no selector
-		w := gg.Path(cfgq.Query{From: gg.Entry(), Target: isDB, AvoidEdge: ring.Infeasible(gi, atomFor(false, true))})
+		w := gg.Path(cfgq.Query{From: gg.Entry(), Target: isDB, AvoidEdge: infeasibleAt(e, gg, dc.Up, atomFor(false, true))})
 		if w != nil {
 			okDB = false
 			why = append(why, "the selector is written although the database is the one written last")
 		}
 		// first object, or another database: the selector is written on every successful path
 		for _, ab := range [][2]bool{{true, false}, {true, true}, {false, false}} {
-			w := gg.Path(cfgq.Query{From: gg.Entry(), Avoid: isDB, AvoidEdge: ring.Infeasible(gi, atomFor(ab[0], ab[1])), TargetExit: errorExit(gg)})
+			w := gg.Path(cfgq.Query{From: gg.Entry(), Avoid: isDB, AvoidEdge: infeasibleAt(e, gg, dc.Up, atomFor(ab[0], ab[1])), TargetExit: errorExit(gg)})
 			if w != nil {
 				okDB = false // a successful exit without the selector
 				why = append(why, fmt.Sprintf("with (nothing written yet=%v, same database=%v) a path succeeds without writing the selector: %s", ab[0], ab[1], strings.Join(w, " -> ")))
 			}
 		}
 		// the new database is remembered on the way
-		remembered := false
+		// (every selector write is preceded, or on every successful path followed, by a
+		// store of the db parameter into e.db)
+		var remember []ast.Node
 		for _, st := range e.Stores(gg, gg.Body, func(v *types.Var) bool { return v.Name() == "db" && v.Pkg() == fn.Obj.Pkg() }) {
 			if st.G == gg && st.Plain() && isParam(flow.Site{G: gg, At: st.At, Up: dc.Up}, st.RHS, ps[0]) {
-				sn := st.Stmt
-				w1 := gg.Path(cfgq.Query{From: gg.Entry(), Avoid: func(n ast.Node) bool { return n == sn }, Target: isDB})
-				if w1 == nil {
-					remembered = true
-				} else if dp, ok := gg.Find(dc.Call); ok {
-					w2 := gg.Path(cfgq.Query{From: dp, After: true, Avoid: func(n ast.Node) bool { return n == sn }, TargetExit: errorExit(gg)})
-					remembered = w2 == nil
+				remember = append(remember, st.Stmt)
+			}
+		}
+		isRemember := func(n ast.Node) bool {
+			for _, sn := range remember {
+				if n == sn {
+					return true
 				}
+			}
+			return false
+		}
+		remembered := len(remember) > 0
+		for _, x := range dbCalls {
+			xc := x.Call
+			isX := func(n ast.Node) bool {
+				for _, cl := range cfgq.ExecCalls(n) {
+					if cl == xc {
+						return true
+					}
+				}
+				return false
+			}
+			if w1 := gg.Path(cfgq.Query{From: gg.Entry(), Avoid: isRemember, Target: isX}); w1 == nil {
+				continue // stored before this write on every path
+			}
+			dp, ok := gg.Find(xc)
+			if !ok {
+				remembered = false
+				continue
+			}
+			if w2 := gg.Path(cfgq.Query{From: dp, After: true, Avoid: isRemember, TargetExit: errorExit(gg)}); w2 != nil {
+				remembered = false
 			}
 		}
 		// a helper must be called unconditionally before the type byte
@@ -609,12 +534,12 @@ func encodeObjectRules(c *core.Ctx, fn *core.Fn) {
 		// and it is written whenever the expiry is non-zero: under `expireat != 0` no
 		// successful exit of the function holding the call avoids it
 		gg := ec.G
-		atom := func(x ast.Expr) (bool, bool) {
+		atom := func(at flow.Site, x ast.Expr) (bool, bool) {
 			be, ok := ast.Unparen(x).(*ast.BinaryExpr)
 			if !ok {
 				return false, false
 			}
-			if v, isC := core.IntConst(gg.Info, be.Y); isC && v == 0 && isParam(flow.Site{G: gg, At: gg.Entry(), Up: ec.Up}, be.X, ps[2]) {
+			if v, isC := core.IntConst(gg.Info, be.Y); isC && v == 0 && isParam(at, be.X, ps[2]) {
 				switch be.Op {
 				case token.NEQ, token.GTR:
 					return true, true
@@ -632,7 +557,7 @@ func encodeObjectRules(c *core.Ctx, fn *core.Fn) {
 			}
 			return false
 		}
-		if w := gg.Path(cfgq.Query{From: gg.Entry(), Avoid: isEx, AvoidEdge: ring.Infeasible(gg.Info, atom), TargetExit: errorExit(gg)}); w != nil {
+		if w := gg.Path(cfgq.Query{From: gg.Entry(), Avoid: isEx, AvoidEdge: infeasibleAt(e, gg, ec.Up, atom), TargetExit: errorExit(gg)}); w != nil {
 			okE = false
 		}
 		c.Check("R2.grammar", "EncodeObject/expiry", fn.Decl.Pos(), okE, "the expiry opcode carries the object's absolute expiry and is written exactly when it is non-zero")
@@ -645,42 +570,6 @@ func encodeObjectRules(c *core.Ctx, fn *core.Fn) {
 		}
 	}
 	c.Check("R2.grammar", "EncodeObject/key", fn.Decl.Pos(), okK, "the key written is the key passed in")
-}
-
-func findIf(info *types.Info, root ast.Node, match func(cond ast.Expr) bool) *ast.IfStmt {
-	var hit *ast.IfStmt
-	core.Inspect(root, func(n ast.Node) bool {
-		if ifs, ok := n.(*ast.IfStmt); ok && hit == nil && match(ifs.Cond) {
-			hit = ifs
-		}
-		return hit == nil
-	})
-	return hit
-}
-
-func findSwitchOn(info *types.Info, body ast.Node, obj types.Object) *ast.SwitchStmt {
-	var sw *ast.SwitchStmt
-	core.Inspect(body, func(n ast.Node) bool {
-		if s, ok := n.(*ast.SwitchStmt); ok && sw == nil && s.Tag != nil {
-			if id, ok := ast.Unparen(s.Tag).(*ast.Ident); ok && info.Uses[id] == obj {
-				sw = s
-			}
-		}
-		return sw == nil
-	})
-	return sw
-}
-
-func clause(info *types.Info, sw *ast.SwitchStmt, val int64) *ast.CaseClause {
-	for _, cl := range sw.Body.List {
-		cc := cl.(*ast.CaseClause)
-		for _, l := range cc.List {
-			if v, ok := core.IntConst(info, l); ok && v == val {
-				return cc
-			}
-		}
-	}
-	return nil
 }
 
 // linkedEncoder checks the opcodes emitted by the module-cache encoder.
@@ -750,246 +639,5 @@ func linkedEncoder(c *core.Ctx) {
 			}
 		}
 		c.Check("R1.ids", "dump-version", pos, init == v, fmt.Sprintf("pkg/rdb.ToVersion (%d) must equal the linked cupcake Version (%d): the parser's DUMP payloads are verified by cupcake's verifyDump", init, v))
-	}
-}
-
-// wiring checks R3 inside the decoder cases.
-func wiring(c *core.Ctx, ro *core.Fn, sw *ast.SwitchStmt) {
-	info := ro.Pkg.TypesInfo
-	keyParam := ro.Decl.Type.Params.List[0].Names[0]
-	type ev struct {
-		typ    int64
-		fn     string // function holding the loop ("" = the clause itself)
-		reads  []string
-		event  string
-		why    string
-		derive bool
-	}
-	evs := []ev{
-		{0, "", []string{"_v, _err = _d.readString()"}, "_d.event.Set(_key, _v, _exp)", "Set(key, value, expiry) carries the string read", false},
-		{1, "", []string{"_v, _err = _d.readString()"}, "_d.event.Rpush(_key, _v)", "Rpush(key, value) carries each element in read order", false},
-		{2, "", []string{"_v, _err = _d.readString()"}, "_d.event.Sadd(_key, _v)", "Sadd(key, member) carries each member", false},
-		{4, "", []string{"_f, _err = _d.readString()", "_v, _err2 = _d.readString()"}, "_d.event.Hset(_key, _f, _v)", "Hset(key, field, value): the first string read is the field", false},
-		{13, "readZiplistHash", []string{"_f, _err = readZiplistEntry(_buf)", "_v, _err2 = readZiplistEntry(_buf)"}, "_d.event.Hset(_key, _f, _v)", "Hset(key, field, value): the first ziplist entry is the field", false},
-		{9, "readZipmap", []string{"_f, _err = readZipmapItem(_buf, false)", "_v, _err2 = readZipmapItem(_buf, true)"}, "_d.event.Hset(_key, _f, _v)", "Hset(key, field, value): the zipmap key item (no free byte) is the field, the value item carries the free byte", false},
-		{10, "readZiplist", []string{"_v, _err = readZiplistEntry(_buf)"}, "_d.event.Rpush(_key, _v)", "Rpush(key, value) carries each ziplist entry in order", false},
-	}
-	for _, e := range evs {
-		var root ast.Node
-		b := pat.Binds{}
-		if e.fn == "" {
-			cc := clause(info, sw, e.typ)
-			if cc == nil {
-				continue
-			}
-			root = &ast.BlockStmt{List: cc.Body}
-			b["_key"] = keyParam
-		} else {
-			fn := c.Func(cupPkg, "decode", e.fn)
-			if fn == nil {
-				continue
-			}
-			root = fn.Decl.Body
-			b["_key"] = fn.Decl.Type.Params.List[0].Names[0]
-		}
-		ok := true
-		last := token.NoPos
-		for _, r := range e.reads {
-			// the reads must appear in order; bind their result variables
-			found := false
-			for _, n := range pat.Stmt(r).FindAll(info, root, b) {
-				if n.Pos() > last {
-					nb := pat.Stmt(r).Match(info, n, b)
-					for k, v := range nb {
-						b[k] = v
-					}
-					last = n.Pos()
-					found = true
-					break
-				}
-			}
-			ok = ok && found
-		}
-		if ok {
-			n, _ := pat.Expr(e.event).Find(info, root, b)
-			ok = n != nil && n.Pos() > last
-		}
-		c.Check("R3.wiring", fmt.Sprintf("decoder/%d-%s", e.typ, typeNames[e.typ]), root.Pos(), ok, e.why)
-	}
-	// zset: member read first, score second, Zadd(key, score, member)
-	for _, z := range []struct {
-		typ int64
-		fn  string
-	}{{3, ""}, {12, "readZiplistZset"}} {
-		var root ast.Node
-		b := pat.Binds{}
-		if z.fn == "" {
-			cc := clause(info, sw, z.typ)
-			if cc == nil {
-				continue
-			}
-			root = &ast.BlockStmt{List: cc.Body}
-			b["_key"] = keyParam
-		} else {
-			fn := c.Func(cupPkg, "decode", z.fn)
-			if fn == nil {
-				continue
-			}
-			root = fn.Decl.Body
-			b["_key"] = fn.Decl.Type.Params.List[0].Names[0]
-		}
-		ok := false
-		if z.fn == "" {
-			m, mb := pat.Stmt("_m, _err = _d.readString()").Find(info, root, b)
-			if m != nil {
-				s1, _ := pat.Stmt("_s, _err = _d.readDouble64()").Find(info, root, mb)
-				s2, sb := pat.Stmt("_s, _err = _d.readFloat64()").Find(info, root, mb)
-				if s1 != nil && s2 != nil && s1.Pos() > m.Pos() && s2.Pos() > m.Pos() {
-					n, _ := pat.Expr("_d.event.Zadd(_key, _s, _m)").Find(info, root, sb)
-					ok = n != nil
-				}
-			}
-		} else {
-			m, mb := pat.Stmt("_m, _err = readZiplistEntry(_buf)").Find(info, root, b)
-			if m != nil {
-				var sb pat.Binds
-				for _, n := range pat.Stmt("_sb, _err2 = readZiplistEntry(_buf)").FindAll(info, root, mb) {
-					if n.Pos() > m.Pos() {
-						sb = pat.Stmt("_sb, _err2 = readZiplistEntry(_buf)").Match(info, n, mb)
-						break
-					}
-				}
-				if sb != nil {
-					p, pb := pat.Stmt("_s, _err3 = strconv.ParseFloat(string(_sb), 64)").Find(info, root, sb)
-					if p != nil {
-						n, _ := pat.Expr("_d.event.Zadd(_key, _s, _m)").Find(info, root, pb)
-						ok = n != nil
-					}
-				}
-			}
-		}
-		c.Check("R3.wiring", fmt.Sprintf("decoder/%d-%s", z.typ, typeNames[z.typ]), root.Pos(), ok, "the member is read first, the score second, and the event is Zadd(key, score, member)")
-	}
-}
-
-// adaptor checks pkg/rdb/decoder.go: each callback stores its parameters in
-// the fields of the same meaning.
-func adaptor(c *core.Ctx) {
-	pk := c.Pkg(rdbPkg)
-	info := pk.TypesInfo
-	params := func(fn *core.Fn) []*ast.Ident {
-		var ps []*ast.Ident
-		for _, f := range fn.Decl.Type.Params.List {
-			ps = append(ps, f.Names...)
-		}
-		return ps
-	}
-	if fn := c.Func(rdbPkg, "decoder", "Hset"); fn != nil {
-		ps := params(fn)
-		ok := false
-		if len(ps) == 3 {
-			b := pat.Binds{"_f": ps[1], "_v": ps[2]}
-			a, _ := pat.Stmt("_d.obj = append(_h, &HashElement{Field: _f, Value: _v})").Find(info, fn.Decl.Body, b)
-			ok = a != nil
-		}
-		c.Check("R3.wiring", "adaptor/Hset", fn.Decl.Pos(), ok, "Hset(key, field, value) appends HashElement{Field: field, Value: value} (order preserved)")
-	}
-	if fn := c.Func(rdbPkg, "decoder", "Zadd"); fn != nil {
-		ps := params(fn)
-		ok := false
-		if len(ps) == 3 {
-			b := pat.Binds{"_s": ps[1], "_m": ps[2]}
-			a, _ := pat.Stmt("_d.obj = append(_z, &ZSetElement{Member: _m, Score: _s})").Find(info, fn.Decl.Body, b)
-			ok = a != nil
-		}
-		c.Check("R3.wiring", "adaptor/Zadd", fn.Decl.Pos(), ok, "Zadd(key, score, member) appends ZSetElement{Member: member, Score: score}")
-	}
-	for _, m := range []struct{ name, typ string }{{"Rpush", "List"}, {"Sadd", "Set"}} {
-		if fn := c.Func(rdbPkg, "decoder", m.name); fn != nil {
-			ps := params(fn)
-			ok := false
-			if len(ps) == 2 {
-				a, _ := pat.Stmt("_d.obj = append(_l, _v)").Find(info, fn.Decl.Body, pat.Binds{"_v": ps[1]})
-				ok = a != nil
-			}
-			c.Check("R3.wiring", "adaptor/"+m.name, fn.Decl.Pos(), ok, m.name+"(key, x) appends x to the "+m.typ+" in call order")
-		}
-	}
-	if fn := c.Func(rdbPkg, "decoder", "Set"); fn != nil {
-		ps := params(fn)
-		ok := false
-		if len(ps) == 3 {
-			n, _ := pat.Expr("_d.initObject(String(_v))").Find(info, fn.Decl.Body, pat.Binds{"_v": ps[1]})
-			ok = n != nil
-		}
-		c.Check("R3.wiring", "adaptor/Set", fn.Decl.Pos(), ok, "Set(key, value, expiry) yields String(value)")
-	}
-	for _, m := range []struct{ name, typ string }{{"StartHash", "Hash"}, {"StartSet", "Set"}, {"StartList", "List"}, {"StartZSet", "ZSet"}} {
-		if fn := c.Func(rdbPkg, "decoder", m.name); fn != nil {
-			n, _ := pat.Expr("_d.initObject("+m.typ+"(nil))").Find(info, fn.Decl.Body, nil)
-			c.Check("R3.wiring", "adaptor/"+m.name, fn.Decl.Pos(), n != nil, m.name+" initialises an empty "+m.typ)
-		}
-	}
-	if fn := c.Func(rdbPkg, "", "DecodeDump"); fn != nil {
-		n, b := pat.Stmt("_d = &decoder{}").Find(info, fn.Decl.Body, nil)
-		ok := false
-		if n != nil {
-			ps := params(fn)
-			b["_p"] = ps[0]
-			n1, _ := pat.Expr("rdb.DecodeDump(_p, 0, nil, 0, _d)").Find(info, fn.Decl.Body, b)
-			n2, _ := pat.Stmt("return _d.obj, _d.err").Find(info, fn.Decl.Body, b)
-			ok = n1 != nil && n2 != nil
-		}
-		c.Check("R3.wiring", "adaptor/DecodeDump", fn.Decl.Pos(), ok, "DecodeDump decodes the payload it was given into a fresh adaptor and returns that adaptor's object")
-	}
-}
-
-// converters checks R5.
-func converters(c *core.Ctx) {
-	pk := c.Pkg(rdbPkg)
-	info := pk.TypesInfo
-	for _, m := range []struct{ recv, name, target string }{{"BinEntry", "ObjEntry", "ObjEntry"}, {"ObjEntry", "BinEntry", "BinEntry"}} {
-		fn := c.Func(rdbPkg, m.recv, m.name)
-		if fn == nil {
-			continue
-		}
-		recv := fn.Decl.Recv.List[0].Names[0]
-		var lit *ast.CompositeLit
-		core.Inspect(fn.Decl.Body, func(n ast.Node) bool {
-			if cl, ok := n.(*ast.CompositeLit); ok && core.NamedTypeName(info.TypeOf(cl)) == m.target {
-				lit = cl
-			}
-			return true
-		})
-		if lit == nil {
-			c.Undecidedf("R5.convert", m.recv+"."+m.name, fn.Decl.Pos(), "no %s literal found", m.target)
-			continue
-		}
-		srcT, _ := pk.Types.Scope().Lookup(m.recv).Type().Underlying().(*types.Struct)
-		dstT, _ := pk.Types.Scope().Lookup(m.target).Type().Underlying().(*types.Struct)
-		set := map[string]ast.Expr{}
-		for _, el := range lit.Elts {
-			if kv, ok := el.(*ast.KeyValueExpr); ok {
-				if id, ok := kv.Key.(*ast.Ident); ok {
-					set[id.Name] = kv.Value
-				}
-			}
-		}
-		for i := 0; i < dstT.NumFields(); i++ {
-			f := dstT.Field(i).Name()
-			if f == "Value" {
-				continue
-			}
-			hasSrc := false
-			for j := 0; j < srcT.NumFields(); j++ {
-				hasSrc = hasSrc || srcT.Field(j).Name() == f
-			}
-			if !hasSrc {
-				continue
-			}
-			v, ok := set[f]
-			okCopy := ok && pat.Expr("_e."+f).Match(info, v, pat.Binds{"_e": recv}) != nil
-			c.Check("R5.convert", m.recv+"."+m.name+"/"+f, lit.Pos(), okCopy, fmt.Sprintf("%s() copies %s unchanged (database, key, type, expiry and chunk bookkeeping survive the conversion)", m.name, f))
-		}
 	}
 }
